@@ -133,7 +133,7 @@ func runR023(c *core.Ctx) {
 					continue
 				}
 				cf := core.Callee(inf, call)
-				if cf != nil && cf.Name() == "RawPathSegment" && len(call.Args) == 1 {
+				if cf != nil && core.NameOf(cf) == "RawPathSegment" && len(call.Args) == 1 {
 					if cv := core.ConstOf(inf, call.Args[0]); cv != nil {
 						pw.segs = append(pw.segs, constant.StringVal(cv))
 					}
@@ -234,7 +234,7 @@ func runR023(c *core.Ctx) {
 		var names []string
 		ast.Inspect(reg.Body, func(n ast.Node) bool {
 			if call, ok := n.(*ast.CallExpr); ok {
-				if cf := core.Callee(inf, call); cf != nil && cf.Name() == "NewResourcePathSegment" && len(call.Args) == 2 {
+				if cf := core.Callee(inf, call); cf != nil && core.NameOf(cf) == "NewResourcePathSegment" && len(call.Args) == 2 {
 					if cv := core.ConstOf(inf, call.Args[0]); cv != nil {
 						names = append(names, constant.StringVal(cv))
 					}
@@ -663,7 +663,7 @@ func runR076(c *core.Ctx) {
 				if !ok {
 					return true
 				}
-				if f := core.Callee(inf, call); f != nil && f.Name() == "CheckFields" && chk == 0 {
+				if f := core.Callee(inf, call); f != nil && core.NameOf(f) == "CheckFields" && chk == 0 {
 					chk = call.Pos()
 				}
 				if id, ok := core.Unparen(call.Fun).(*ast.Ident); ok && len(call.Args) == 1 && firstKey == 0 {
@@ -686,10 +686,10 @@ func runR076(c *core.Ctx) {
 			ast.Inspect(up.Body, func(n ast.Node) bool {
 				if call, ok := n.(*ast.CallExpr); ok {
 					if f := core.Callee(inf, call); f != nil {
-						if f.Name() == "ReadMap" && read == 0 {
+						if core.NameOf(f) == "ReadMap" && read == 0 {
 							read = call.Pos()
 						}
-						if f.Name() == "CheckFields" && enclosingFuncLitOf(up, call) == nil {
+						if core.NameOf(f) == "CheckFields" && enclosingFuncLitOf(up, call) == nil {
 							chk = call.Pos()
 						}
 					}
@@ -765,7 +765,7 @@ func runR114(c *core.Ctx) {
 					case *ast.ReturnStmt:
 						if len(st.Results) == 1 {
 							if call, ok := core.Unparen(st.Results[0]).(*ast.CallExpr); ok {
-								if f := core.Callee(inf, call); f != nil && f.Name() == "NewFieldCannotBeDeletedError" {
+								if f := core.Callee(inf, call); f != nil && core.NameOf(f) == "NewFieldCannotBeDeletedError" {
 									kind = "cannot"
 								}
 							}
